@@ -57,7 +57,7 @@ def _check_set(P, ctx, case, s, where):
             ctx.fail("shape", f"{where}.{name} has {a.shape[0]} values for {b.shape[0]} rows", case, where=where.split('[')[0], field=name)
             continue
         with np.errstate(all="ignore"):
-            bad = ~((a == b) | (np.abs(a - b) <= 4 * eps * (np.abs(b) + 1)))
+            bad = ~((a == b) | (np.isfinite(b) & (np.abs(a - b) <= 4 * eps * (np.abs(b) + 1))))
         if bad.any():
             j = int(np.argmax(bad))
             ctx.fail(f"stale:{name}", f"{where}.{name}[{j}]={a[j]!r} but the user's function at the stored coordinates of row {j} gives {b[j]!r}",
@@ -68,7 +68,7 @@ def _check_set(P, ctx, case, s, where):
         b = np.asarray(P.flow._log_q(x), dtype=np.float64).reshape(-1)
         tol = 1e-3 if eps > 1e-10 else 1e-6
         with np.errstate(all="ignore"):
-            bad = ~((a == b) | (np.abs(a - b) <= tol * (np.abs(b) + 1)))
+            bad = ~((a == b) | (np.isfinite(b) & (np.abs(a - b) <= tol * (np.abs(b) + 1))))
         if bad.any():
             j = int(np.argmax(bad))
             ctx.fail("stale:log_q", f"{where}.log_q[{j}]={a[j]!r} but the proposal's log-density at the stored coordinates is {b[j]!r}",
